@@ -24,7 +24,7 @@ from inferno.learn import STDP, TripletSTDP, MSTDP, MSTDPET, KernelSTDP, DelayAd
 
 from mc.common import Tally
 from mc.pool import run_shards
-from checks.trainer_common import Cellspec, all_histories, identity_reduction, F64
+from checks.trainer_common import Cellspec, all_histories, identity_reduction, F64, step_layer
 import checks.c08_stdp as c08
 import checks.c18_delayadj as c18
 
@@ -55,7 +55,7 @@ def kernel_shard(conn, nio, T, dt, sign):
     for t in range(T):
         Ks.append(torch.zeros(spec.F, spec.N, dtype=F64))
         try:
-            layer(spec.pre_tensor(pre_bits[t]), neuron_kwargs={"override": spec.post_tensor(post_bits[t])})
+            step_layer(layer, spec.pre_tensor(pre_bits[t]), spec.post_tensor(post_bits[t]))
             tr()
         except Exception as ex:
             tally.violation(f"exception:kernel:{type(ex).__name__}", {**case, "step": t}, repr(ex))
@@ -118,7 +118,7 @@ def kernel_parts_shard(T, dt):
         pos_ref = neg_ref = 0.0
         for t in range(T):
             try:
-                layer(spec.pre_tensor([h[t][:1] for h in pair]), neuron_kwargs={"override": spec.post_tensor([h[t][1:] for h in pair])})
+                step_layer(layer, spec.pre_tensor([h[t][:1] for h in pair]), spec.post_tensor([h[t][1:] for h in pair]))
                 tr()
             except Exception as ex:
                 tally.violation(f"exception:kernel-parts:{type(ex).__name__}", {**case, "step": t}, repr(ex))
@@ -224,7 +224,7 @@ def direction_shard():
         tr.register_cell("cell", layer.cell)
         w0 = float(layer.connection.weight)
         for t in range(len(pre)):
-            layer(spec.pre_tensor([[pre[t]]]), neuron_kwargs={"override": spec.post_tensor([[post[t]]])})
+            step_layer(layer, spec.pre_tensor([[pre[t]]]), spec.post_tensor([[post[t]]]))
             if signal is not None:
                 tr(signal, 1.0)
             else:
@@ -298,7 +298,7 @@ def routing_shard():
                         acc.lowerbound(zero_probe, 0.0)
                     w0 = layer.connection.weight.detach().clone()
                     for t in range(3):
-                        layer(spec.pre_tensor([h[t][:1]]), neuron_kwargs={"override": spec.post_tensor([h[t][1:]])})
+                        step_layer(layer, spec.pre_tensor([h[t][:1]]), spec.post_tensor([h[t][1:]]))
                         if kind == "mstdpet":
                             tr(1.0, 1.0)
                         else:
